@@ -68,6 +68,18 @@ pub enum RespDatum {
     Composite(Vec<RespDatum>),
     /// an `Error` handed over as response data (what `SYSTem:ERRor?` does)
     Err(ErrSpec),
+    /// a device-defined `ResponseData` type whose formatting fails with this error (a sensor that cannot be
+    /// read while the answer is being written): the unit, and with it the message, fails with exactly that error
+    Failing(ErrSpec),
+}
+
+/// The device-defined response type behind `RespDatum::Failing`.
+pub struct FailingData(pub Error);
+
+impl ResponseData for FailingData {
+    fn format_response_data(&self, _f: &mut dyn scpi::parser::response::Formatter) -> Result<()> {
+        Err(self.0)
+    }
 }
 
 /// The device-defined composite response type behind `RespDatum::Composite`.
@@ -113,7 +125,7 @@ pub fn zero_block(n: u32) -> &'static [u8] {
 impl RespDatum {
     /// The kinds a composite is made of.
     pub fn is_simple(&self) -> bool {
-        !matches!(self, RespDatum::BigBlock(_) | RespDatum::ManyU8(_) | RespDatum::ZeroBlock(_) | RespDatum::ChrList(_) | RespDatum::Composite(_))
+        !matches!(self, RespDatum::BigBlock(_) | RespDatum::ManyU8(_) | RespDatum::ZeroBlock(_) | RespDatum::ChrList(_) | RespDatum::Composite(_) | RespDatum::Failing(_))
     }
     /// Independent encoding (not through the library).
     pub fn encode(&self, out: &mut Vec<u8>) {
@@ -150,6 +162,7 @@ impl RespDatum {
                     d.encode(out);
                 }
             }
+            RespDatum::Failing(_) => {}
             RespDatum::Err(e) => {
                 // <code>,"<description>[;<device-dependent info>]" with quotes doubled (SCPI-99 21.8)
                 let err = e.build();
@@ -556,6 +569,7 @@ impl Rec {
                     RespDatum::ZeroBlock(n) => resp.data(Arbitrary(zero_block(*n))),
                     RespDatum::Composite(parts) => resp.data(CompositeData(&parts[..])),
                     RespDatum::Err(e) => resp.data(e.build()),
+                    RespDatum::Failing(e) => resp.data(FailingData(e.build())),
                     RespDatum::ChrList(items) if items.len() % 2 == 0 => resp.data(items.iter().map(|i| Character(&i[..])).collect::<Vec<_>>()),
                     RespDatum::ChrList(items) => resp.data(items.iter().take(8).map(|i| Character(&i[..])).collect::<arrayvec::ArrayVec<_, 8>>()),
                     RespDatum::ManyU8(n) => {
